@@ -244,6 +244,12 @@ def fmt(ctx: Ctx) -> List[Ob]:
         last = lp.body[-1]
         el = match(f"{nm}[{iv}] = $n", last)
         O(["C12", "C05"], r, "every created node is recorded under its entry index", el is not None, "later entries refer to earlier ones by position")
+        if el is not None:
+            # in every branch the node that was just created is what gets recorded
+            adds_ = [c for c in ast.walk(lp) if isinstance(c, ast.Call) and isinstance(c.func, ast.Attribute) and c.func.attr in ("add", "add_child")]
+            bound = [c for c in adds_ if isinstance(m.parent_of(c), ast.Assign) and norm(m.parent_of(c).targets[0]) == el["$n"]]
+            O(["C12", "C05"], r, "the node recorded under the entry index is the one created for this entry (str, clone reference and dict entries)",
+              len(adds_) == 3 and len(bound) == 3, "children of a repeated occurrence would be attached below the first occurrence")
         par = one(f"$par = {nm}[{pv}]", lp)
         O(["C12", "C05"], r, "the parent is looked up by the entry's parent index", par is not None, "")
         if par is None:
@@ -311,7 +317,7 @@ def fmt(ctx: Ctx) -> List[Ob]:
     dumps = [c for c in env.calls_in[sv] if norm(c.func) == "json.dump"]
     ok = len(dumps) == 1 and {k.arg for k in dumps[0].keywords} <= {"indent", "separators", "ensure_ascii"} and not any(
         k.arg == "ensure_ascii" and norm(k.value) == "False" for k in dumps[0].keywords)
-    O(["C05"], sv, "json.dump keeps the default ASCII-safe escaping (path and stream targets behave alike)", ok,
+    O(["C05", "C19", "C12"], sv, "json.dump keeps the default ASCII-safe escaping (path and stream targets behave alike)", ok,
       "ensure_ascii=False makes the result depend on the target stream's encoding (lone surrogates from os.fsdecode fail for path targets only)")
     # ------------------------------------------------------------------ load
     ld = m.func("Tree.load")
@@ -347,6 +353,10 @@ def fmt(ctx: Ctx) -> List[Ob]:
             raise AnalysisError(f"{q}: item loop not recognised")
         lp = lps[0]
         kv, vv = norm(lp.target.elts[0]), norm(lp.target.elts[1])
+        early = [n for n in iter_own(f.node) if isinstance(n, ast.Return) and n.lineno < lp.lineno]
+        ok_e = all(isinstance(m.parent_of(r_), ast.If) and norm(m.parent_of(r_).test) == f"isinstance({dname}, str)" for r_ in early)
+        O(["C05", "C12"], f, f"{q}: no early exit that depends on only one of the two maps", ok_e,
+          "key map and value map are independent: with key_map off and a value map in use the values must still be translated")
         okcopy = match(f"list({dname}.items())", lp.iter) is not None or match(f"tuple({dname}.items())", lp.iter) is not None
         O(["C05", "C12"], f, f"{q}: iterates a copy of the items while renaming keys", okcopy, "renaming keys changes the dict during iteration", lp)
         mp_ = one(f"$mk = {mapname}[{kv}]", lp)
@@ -370,6 +380,17 @@ def fmt(ctx: Ctx) -> List[Ob]:
         and match("return $r", cmf.body[-1], {"$r": r_[1]["$r"]}) is not None
     O(["C05", "C14", "C17", "C12"], cmf, "call_mapper: the mapper's result replaces the dict unless it is None (falsy results are values)", ok,
       "`res or data` would replace a falsy data object (0, empty container) by the raw entry dict")
+    # ---- default mappers accept every key combination the writers emit for plain string entries
+    for cn, nkeys in (("Tree", 2), ("TypedTree", 3)):
+        dm_ = m.lookup(cn, "deserialize_mapper")
+        bound_ = None
+        for n_ in iter_own(dm_.node):
+            if isinstance(n_, ast.Compare) and len(n_.ops) == 1 and match("len(data)", n_.left) is not None and isinstance(n_.comparators[0], ast.Constant):
+                v_ = n_.comparators[0].value
+                bound_ = v_ if isinstance(n_.ops[0], ast.LtE) else v_ - 1 if isinstance(n_.ops[0], ast.Lt) else None
+        ok = has("'str' in data", dm_.node) and (bound_ is None and not has("len(data)", dm_.node) or (bound_ is not None and bound_ >= nkeys))
+        O(["C05", "C12"], dm_, f"{cn}.deserialize_mapper accepts a plain-string entry with all {nkeys} keys its writer can emit", ok,
+          f"a string node with a custom data_id is written with {nkeys} keys; the default mapper must not refuse the file the tree wrote itself")
     # ---- zip streams
     oc = m.func("open_as_compressed_output_stream")
     ifs = [n for n in oc.body if isinstance(n, ast.If)]
@@ -438,6 +459,10 @@ def fmt(ctx: Ctx) -> List[Ob]:
             ok = any(isinstance(st_, ast.Assign) and "res['children']" in [norm(t) for t in st_.targets] and e["$acc"] in [norm(t) for t in st_.targets]
                      for st_ in ast.walk(td.node)) or has(f"$r['children'] = {e['$acc']}", td.node)
     O(["C14"], td, "to_dict nests the children's dicts in child order", ok, "the nested form mirrors the tree")
+    rr = one("$r = call_mapper(mapper, self, $r)", td.node)
+    O(["C14"], td, "to_dict uses the dict returned by the mapper (a mapper may return a new dict)", rr is not None and any(
+        isinstance(n, ast.Return) and n.value is not None and norm(n.value) == rr[1]["$r"] for n in iter_own(td.node)) if rr else False,
+      "a serialize mapper that returns a new dict instead of patching the passed one would be ignored")
     cid = [n for n in iter_own(td.node) if isinstance(n, ast.If) and match("self._data_id != hash(self._data)", n.test) is not None]
     ok = len(cid) == 1 and match("$r['data_id'] = self._data_id", cid[0].body[0]) is not None
     O(["C14"], td, "to_dict stores data_id whenever it is not hash(data) (falsy ids included)", ok, "custom ids must survive")
@@ -456,6 +481,10 @@ def fmt(ctx: Ctx) -> List[Ob]:
             ok = len(tgt) == 1 and norm(recs[0].func.value) == norm(tgt[0].targets[0])
             src = [st_ for st_ in ast.walk(lp) if isinstance(st_, ast.Assign) and norm(st_.targets[0]) == norm(recs[0].args[0])]
             ok = ok and len(src) == 1 and norm(src[0].value) == f"{iv}.get('children')"
+    pops = [c for c in ast.walk(fd.node) if isinstance(c, ast.Call) and isinstance(c.func, ast.Attribute) and c.func.attr in ("pop", "popitem", "clear", "update", "setdefault")
+            and norm(c.func.value) in ([norm(lps[0].target)] if lps else [])]
+    O(["C14"], fd, "from_dict only reads the caller's structure (no pop/update on the items)", not pops,
+      "" if not pops else f"`{norm(pops[0])}` strips the caller's data: a second from_dict() on the same structure builds a different tree")
     O(["C14"], fd, "from_dict appends one child per item in order, passing its data_id (read after the mapper ran), and recurses into its 'children' on that child", ok,
       "shape, order, custom ids and nesting must be rebuilt; a deserialize mapper may supply item['data_id']")
     tl = m.func("Tree.to_dict_list")
